@@ -247,6 +247,10 @@ def check_contract(variant, cexpr, extra_requires):
                     ("after", "repeated_tuples = {...", "assert forall([(a, Real), (u, Unit)], implies(twice(a, u), "
                      "exists([k1, k2], 0 <= k1 and k1 < k2 and k2 < NAT and alignment_tuples[k1][0] == a and alignment_tuples[k1][1] == u and "
                      "alignment_tuples[k2][0] == a and alignment_tuples[k2][1] == u)))"),
+                    ("after", "repeated_tuples = {...", "assert forall([(a, Real), (u, Unit)], implies(has(repeated_tuples, (a, u)), "
+                     "exists([k1, k2], 0 <= k1 and k1 < k2 and k2 < NAT and alignment_tuples[k1][0] == a and alignment_tuples[k1][1] == u and "
+                     "alignment_tuples[k2][0] == a and alignment_tuples[k2][1] == u)))"),
+                    ("after", "repeated_tuples = {...", f"assert forall([(a, Real), (u, Unit)], implies(has(repeated_tuples, (a, u)), twice(a, u) and Us({C})[a][u]))"),
                     ("after", "repeated_tuples = {...", "assert forall([(a, Real), (u, Unit)], implies(twice(a, u), has(repeated_tuples, (a, u))))"),
                     ("after", "repeated_tuples = {...", f"assert forall([(a, Real), (u, Unit)], implies(Us({C})[a][u] and twice(a, u), "
                      f"has(repeated_tuples, (a, u))), pat=[Us({C})[a][u]])")],
@@ -259,3 +263,77 @@ contract(F + "Alignment.check#none", params={"self": ALIGN(), "continuum": OptOb
          requires=["isnone(continuum)", "isnone(self.continuum)"],
          raises={"ValueError": {"iff": "true()"}},
          notes="no continuum anywhere: ValueError before anything is inspected", serves={"C17"})
+
+
+def init_validity_contract(cls, check_variant, part_kind, name=None, recv_cls=None, calls=None):
+    """Alignment(..., continuum, check_validity=True): the constructor stores its arguments and applies exactly self.check()"""
+    import re
+    ren = lambda t: re.sub(r"\bself\.unitary_alignments\b", "unitary_alignments", t)      # noqa: E731
+    macros = [Macro(m.name, m.params, ren(m.body.text)) for m in CHECK_MACROS]
+    C = "some(continuum)"
+    if part_kind == "partition":
+        ok = f"forall([(a, Real), (u, Unit)], implies(Us({C})[a][u], once(a, u) and not twice(a, u)))"
+        dom = [f"forall([(a, Real), (u, Unit)], implies(twice(a, u), Us({C})[a][u]))"]
+    else:
+        ok = f"forall([(a, Real), (u, Unit)], implies(Us({C})[a][u], once(a, u)))"
+        dom = [f"forall([t, i], implies(inrange(t, i) and real(t, i), Us({C})[unitary_alignments[t]._n_tuple[i][0]]"
+               "[some(unitary_alignments[t]._n_tuple[i][1])]))"]
+    contract(F + (name or f"{cls}.__init__#validity"),
+             params={"self": ALIGN(recv_cls or cls), "unitary_alignments": ListOf(UAT()), "continuum": OptObjT(CONT()),
+                     "check_validity": BoolT(), "disorder": OptT(RealT())},
+             modifies=["self"], macros=macros,
+             requires=["check_validity", "not isnone(continuum)", f"RI({C})", "len(unitary_alignments) >= 1"] + dom,
+             raises={"ValueError": {"iff": "not same_width()"},
+                     "SetPartitionError": {"iff": f"same_width() and not {ok}"}},
+             ensures=[cl(ok, "C17", name="constructed-only-if-the-check-passes")],
+             binds={"self.unitary_alignments": "unitary_alignments", "self.continuum": "continuum", "self._disorder": "disorder"},
+             calls=calls or {"self.check": F + f"{cls}.check#" + check_variant},
+             serves={"C17"})
+
+
+init_validity_contract("Alignment", "own", "partition")
+
+
+def soft_check_contract(variant, cexpr, extra_requires):
+    """SoftAlignment.check: returns normally iff every (annotator, unit) of the continuum is held by at least one slot (and every held
+    pair is a pair of the continuum: a foreign pair makes the counting raise KeyError)"""
+    C = cexpr
+    cover_ok = f"forall([(a, Real), (u, Unit)], implies(Us({C})[a][u], once(a, u)))"
+    foreign = (f"exists([t, i], inrange(t, i) and real(t, i) and not (Ann({C})[L()[t]._n_tuple[i][0]] and "
+               f"Us({C})[L()[t]._n_tuple[i][0]][some(L()[t]._n_tuple[i][1])]))")
+    counted = ("forall([(a, Real), (u, Unit)], occ(unit_occurences, a, u) >= 0 and "
+               "(occ(unit_occurences, a, u) >= 1) == exists([t, i], inrange(t, i) and before(t, i, {tt}, {ii}) and holds(t, i, a, u)))")
+    nf_upto = (f"forall([t, i], implies(inrange(t, i) and before(t, i, {{tt}}, {{ii}}) and real(t, i), Ann({C})[L()[t]._n_tuple[i][0]] and "
+               f"Us({C})[L()[t]._n_tuple[i][0]][some(L()[t]._n_tuple[i][1])]))")
+    contract(F + "SoftAlignment.check#" + variant,
+             params={"self": ALIGN("SoftAlignment"), "continuum": OptObjT(CONT())}, modifies=[],
+             macros=CHECK_MACROS + [Macro("C", [], C)],
+             requires=extra_requires + [f"RI({C})", "nL() >= 1"],
+             raises={"ValueError": {"iff": "not same_width()"},
+                     "KeyError": {"iff": f"same_width() and {foreign}"},
+                     "SetPartitionError": {"iff": f"same_width() and not {foreign} and not {cover_ok}"}},
+             ensures=[cl(cover_ok, "C17", name="every-pair-of-the-continuum-held-at-least-once")],
+             loops={"L0": dict(match="for unit_align in self.unitary_alignments", index="t0",
+                               inv=["forall(t, 0, t0, width(t) == width(0))", "first_len == width(0)"]),
+                    "L1": dict(match="for i, unitary_align in enumerate(self)", index="tU",
+                               inv=[counted.format(tt="tU", ii="0"), nf_upto.format(tt="tU", ii="0")]),
+                    "L1.0": dict(match="for annotator, unit in unitary_align.n_tuple", index="iS",
+                                 inv=[counted.format(tt="tU", ii="iS"), nf_upto.format(tt="tU", ii="iS")]),
+                    "L2": dict(match="for annotator, factors in unit_occurences.items()", index="kA",
+                               inv=[f"forall(k, 0, kA, forall(j, 0, Cnt({C})[Kseq({C})[k]], occ(unit_occurences, Kseq({C})[k], Useq({C})[Kseq({C})[k]][j]) != 0))"]),
+                    "L2.0": dict(match="for unit, factor in factors.items()", index="jU",
+                                 inv=[f"forall(j, 0, jU, occ(unit_occurences, annotator, Useq({C})[annotator][j]) != 0)",
+                                      f"annotator == Kseq({C})[kA]"])},
+             hooks=[("before", "for annotator, factors in unit_occurences.items(): ...", f"model_inv wfmap({C})")],
+             serves={"C17"})
+
+
+soft_check_contract("given", "some(continuum)", ["not isnone(continuum)"])
+soft_check_contract("own", "some(self.continuum)", ["isnone(continuum)", "not isnone(self.continuum)"])
+contract(F + "SoftAlignment.check#none", params={"self": ALIGN("SoftAlignment"), "continuum": OptObjT(CONT())}, modifies=[],
+         requires=["isnone(continuum)", "isnone(self.continuum)"], raises={"ValueError": {"iff": "true()"}},
+         notes="no continuum anywhere: ValueError before anything is inspected", serves={"C17"})
+# SoftAlignment(..., check_validity=True) -> Alignment.__init__ run on a SoftAlignment receiver -> SoftAlignment.check()
+init_validity_contract("Alignment", "own", "cover", name="Alignment.__init__#validity-soft", recv_cls="SoftAlignment",
+                       calls={"self.check": F + "SoftAlignment.check#own"})
+init_validity_contract("SoftAlignment", "own", "cover", calls={"super().__init__": F + "Alignment.__init__#validity-soft"})
